@@ -161,7 +161,8 @@ def _dfs_edges_rust(
 
     if target is not None:
         if result["target_reached"]:
-            return Result(list(result["path"]), len(result["path"]) - 1, result["iterations"], 0)
+            # DFS finds a path, not necessarily the shortest: FEASIBLE, like the Python backend
+            return Result(list(result["path"]), len(result["path"]) - 1, result["iterations"], 0, Status.FEASIBLE)
         return Result(None, float("inf"), result["iterations"], 0, Status.INFEASIBLE)
 
     # Same value as the Python backend: the reachable nodes as a sorted list
